@@ -29,6 +29,7 @@ struct Ctx
     {
         st.build(d);
         dm.syms = &st;
+        dm.field_names = false;  // substitution may replace a record operand by something else
     }
     void fail(const std::string& law, const std::string& detail)
     {
